@@ -636,14 +636,14 @@ def justify(arg, f, line, env, depth):
 
 
 # ---------------------------------------------------------------------- ROW
-def row_rule(ctx, syn):
+def row_rule(ctx, syn, rid="C01.ROW"):
     """rows of the reverse indices: insertion is idempotent for the newest handle, appends keep the
     handle order, removal keeps the order of the remaining entries (finite evaluation of the extracted
     insert / remove of RelationMap and RelationBTreeMap)"""
     from synq import unparse
     from formula import Evaluator, Unknown, Panic, StructVal, some, is_some
     from props.c10 import closure_call
-    r = ctx.rule("C01.ROW", "a row of a reverse index holds each referrer once, in handle order, and removal preserves that order")
+    r = ctx.rule(rid, "a row of a reverse index holds each referrer once, in handle order, and removal drops exactly the named referrer (none when it is not in the row) and preserves that order")
     hooks = {}
     hooks["as_usize"] = lambda ev, recv, args, node, env: recv if isinstance(recv, int) else NotImplemented
     hooks["last"] = lambda ev, recv, args, node, env: (some(recv[-1]) if recv else None) if isinstance(recv, list) else NotImplemented
@@ -789,11 +789,22 @@ def row_rule(ctx, syn):
                 if got != want:
                     ctx.report(r, "%s:remove" % ty, "%s::remove(.., %d) leaves the row %s, expected %s: removal must drop exactly that referrer and keep the others in handle order (the rows are handed out as sorted collections)" % (ty, victim, got, want), rem.file, rem.line)
                     break
+            # down to a single referrer; then a referrer that is not in the row (an annotation that names one item
+            # through two sub-selectors is un-indexed twice), then the last one
+            do(rem, m, 2, 4)
+            for victim, want in ((3, [7]), (9, [7]), (7, [])):
+                do(rem, m, 2, victim)
+                got = row(m, 2)
+                n += 1
+                r.hit("%s:remove-single:%d" % (ty, victim), sample={"map": ty, "removed": victim, "row": got})
+                if got != want:
+                    ctx.report(r, "%s:remove-single" % ty, "%s::remove(.., %d) on the single-valued row [7] leaves %s, expected %s: removing a referrer that is not (or no longer) in the row must leave the others alone - an annotation that names the same item through two sub-selectors is un-indexed twice, and the second removal would drop somebody else's relation" % (ty, victim, got, want), rem.file, rem.line)
+                    break
             do(rem, m, 5, 1)   # a row that does not exist
             n += 1
         except (Unknown, Panic) as e:
             ctx.report(r, "%s:unevaluated" % ty, "%s::insert/remove could not be evaluated (%s): the row discipline is not established" % (ty, e), ins.file, ins.line)
-    ctx.floor(r, n, 14, "row operations evaluated")
+    ctx.floor(r, n, 20, "row operations evaluated")
 
 
 # ---------------------------------------------------------------------- COMPRESS
